@@ -126,8 +126,10 @@ def run_case(arg):
             "explicit": case["explicit"], "mode": case["mode"]}
     n, a = len(case["y"]), len(case["y"][0])
 
-    def add(events, wscale, concrete, fn, cfg):
+    def add(events, wscale, concrete, fn, cfg, w_abs=None):
         tr = dict(base, wscale=wscale, events=events, fn=fn, cfg=cfg, concrete=concrete)
+        if w_abs is not None:
+            tr["w"] = w_abs
         key = json.dumps([wscale, events], sort_keys=True)
         if key in seen:
             seen[key]["executions"] += 1
@@ -149,13 +151,17 @@ def run_case(arg):
                 "input_as": form}
         if case["mode"] == "vote":
             unit = all(v == 1 for row in case["w"] for v in row)
-            wforms = ["int", "half", "float"] + (["None"] if unit else [])
+            # "near": large weights that differ by one part in 1e5 (a tolerance-based tie test would call them equal)
+            wforms = ["int", "half", "float", "near"] + (["None"] if unit else [])
             wform = wforms[int(rng.integers(len(wforms)))]
             wscale = [1, 2] if wform == "half" else [1, 1]
+            w_abs = None
             if wform == "None":
                 w_in = None
             else:
-                w_arr = np.array(case["w"], dtype=int if wform == "int" else float)
+                if wform == "near":
+                    w_abs = [[100000 + v if v > 0 else 0 for v in row] for row in case["w"]]
+                w_arr = np.array(w_abs if w_abs is not None else case["w"], dtype=int if wform == "int" else float)
                 if wform == "half":
                     w_arr = w_arr * 0.5
                 if form == "1d":
@@ -193,7 +199,7 @@ def run_case(arg):
             else:
                 ev = {"ev": "Votes", "shape": [int(s) for s in out.shape], "res": _nested(out, rational)}
             add([ev], wscale, dict(conc, call="compute_vote_vectors(y, w=w, classes=classes, missing_label=..)"),
-                "compute_vote_vectors", "w=" + wform)
+                "compute_vote_vectors", "w=" + wform, w_abs)
             # majority_vote under several seeds; every distinct result is logged
             events, results = [], set()
             for s in range(n_seeds):
@@ -213,7 +219,7 @@ def run_case(arg):
                     events.append(ev)
             add(events, wscale, dict(conc, call="majority_vote(y, w=w, classes=classes, missing_label=.., "
                                      "random_state=%d..%d)" % (int(cseed % 1000), int(cseed % 1000) + n_seeds - 1)),
-                "majority_vote", "w=" + wform)
+                "majority_vote", "w=" + wform, w_abs)
         else:
             yt = np.array([cvals[v] for v in case["ytrue"]], dtype=dtype)
             yt_in = yt.tolist() if form == "list" else yt
